@@ -81,6 +81,33 @@ func runC02(p *core.Prog, r *core.Result) {
 					isField = true
 				}
 			}
+			// a selection helper that returns one of its arguments as it is (orDefault(info.Stamp, info.Data))
+			if c, ok := v.(*ssa.Call); ok && !isField {
+				if h := core.Callee(c); h != nil && core.InModule(h) && h.Blocks != nil {
+					verbatim := true
+					for _, hr := range core.ReturnsOf(h) {
+						for _, rv := range core.RetVals(hr) {
+							if _, isPrm := rv.(*ssa.Parameter); !isPrm {
+								verbatim = false
+							}
+						}
+					}
+					allFields := len(c.Call.Args) > 0
+					for _, a := range c.Call.Args {
+						okA := false
+						for _, f := range []string{"Stamp", "Data"} {
+							if core.LoadOfField(a, pkgRoot, "targetInfo", f) {
+								okA = true
+							}
+							if fv, ok := a.(*ssa.Field); ok && core.IsField(fv, pkgRoot, "targetInfo", f) {
+								okA = true
+							}
+						}
+						allFields = allFields && okA
+					}
+					isField = verbatim && allFields
+				}
+			}
 			r.Check(isField, "R2.7", fmt.Sprintf("dawn.(targetInfo).stamp#return-%d", n), p.InstrPos(ret), "the stamp reported after a load is a field of the record as it was read", "the stamp a loaded target reports is recomputed at load instead of read from its record: dependents compare it with what they stored when the record was written, and for records written by another version of the formula (records from before the combined stamp existed carry only Data) the two differ although nothing changed - every dependent of an up-to-date target is re-executed once")
 		}
 		r.Floor("R2.7", n, 1, "returns of targetInfo.stamp")
@@ -437,7 +464,6 @@ func checkSourceCompare(p *core.Prog, r *core.Result, rule string) {
 
 }
 
-
 // checkStalenessHasReason implements R2.6 (the converse of R1.2): every edge that marks the dependencies out of date
 // carries one of the three reasons. Edges merged into the verdict after the dependency loop have none.
 func checkStalenessHasReason(p *core.Prog, r *core.Result) {
@@ -455,7 +481,7 @@ func checkStalenessHasReason(p *core.Prog, r *core.Result) {
 	reason := func(fs core.FactSet) string { return reasonD(fs, id, 0) }
 	reasonD = func(fs core.FactSet, arg func(ssa.Value) ssa.Value, depth int) string {
 		if fs.Find(func(c ssa.Value, v bool) bool {
-			ex, ok := c.(*ssa.Extract)
+			ex, ok := arg(c).(*ssa.Extract)
 			if !ok || ex.Index != 1 || v {
 				return false
 			}
@@ -474,7 +500,7 @@ func checkStalenessHasReason(p *core.Prog, r *core.Result) {
 			}
 			isCur := func(x ssa.Value) bool { return core.LoadOfField(x, pkgRoot, "runTarget", "data") }
 			isPrev := func(x ssa.Value) bool {
-				ex, ok := x.(*ssa.Extract)
+				ex, ok := arg(x).(*ssa.Extract)
 				if !ok || ex.Index != 0 {
 					return false
 				}
